@@ -148,8 +148,8 @@ package rlwe
 //@   ensures implies(isnil(result) && len(ct.Value) == 1, val(c0) + val(enc.buffQP[1].Q) * val(sk.Value.Q) == fresh(XE, old(draws(XE))) && uni(enc.buffQP[1].Q))
 
 //@ afunc Element.Resize
-//@   trusted the element loop and the append are not executed: afterwards the element has degree+1 components (levels are not tracked)
-//@   setlen op.Value = degree + 1
+//@   trusted the element loop and the append are not executed: afterwards the element has degree+1 components (levels are not tracked); the components it GAINS are new polynomials, i.e. the zero element (in every domain)
+//@   setlen op.Value = degree + 1 ; zero
 
 // public-key encryption without auxiliary modulus: (u*pk0 + e0, u*pk1 + e1) with two distinct error draws
 //@ afunc Encryptor.encryptZeroPkNoP
